@@ -501,6 +501,8 @@ class NativeInputs:
             return tuple(self.build(s, f'{path}[{i}]') for i, s in enumerate(sh))
         if isinstance(sh, dsl.Abs):
             fields = {f: self.build(fs, f'{path}.{f}') for f, fs in sh.fields.items()}
+            if sh.iface.native_factory is not None:
+                return sh.iface.native_factory(sh.name or path, self.source, self.log, fields)
             return Stub(sh.iface, sh.name or path, self.source, self.log, fields)
         if isinstance(sh, dsl.Fn):
             return self.source(getattr(sh, 'name', None) or path, sh)
@@ -596,6 +598,60 @@ def install_callee_contracts(contract, patches, log, source=None):
             patches.set(owner, name, stub)
 
 
+def snapshot(v, memo, depth=0):
+    """Entry snapshot of an input for `old_<name>` clause parameters (structural copy; stubs are frozen)."""
+    if id(v) in memo:
+        return memo[id(v)]
+    if depth > 8 or v is None or isinstance(v, (str, int, float, bool, type)):
+        return v
+    if isinstance(v, Stub):
+        d = object.__getattribute__(v, '__dict__')
+        snap = types.SimpleNamespace()
+        memo[id(v)] = snap
+        for k_, x in d.items():
+            if not k_.startswith('_'):
+                setattr(snap, k_, snapshot(x, memo, depth + 1))
+        for k_, fn in d.get('_dyn', {}).items():
+            try:
+                setattr(snap, k_, fn(v))
+            except Exception:
+                pass
+        return snap
+    if isinstance(v, list):
+        out = []
+        memo[id(v)] = out
+        out.extend(snapshot(x, memo, depth + 1) for x in v)
+        return out
+    if isinstance(v, tuple):
+        return tuple(snapshot(x, memo, depth + 1) for x in v)
+    if type(v) is dict:
+        out = {}
+        memo[id(v)] = out
+        for k_, x in v.items():
+            out[k_] = snapshot(x, memo, depth + 1)
+        return out
+    mod = type(v).__module__
+    if hasattr(v, '__dict__') and (mod.startswith('taskchain') or mod.startswith('pyvc') or mod == 'types'):
+        try:
+            if isinstance(v, str):
+                o = str.__new__(type(v), str(v))
+            elif isinstance(v, dict):
+                o = dict.__new__(type(v))
+                dict.update(o, {k_: snapshot(x, memo, depth + 1) for k_, x in dict.items(v)})
+            else:
+                o = object.__new__(type(v))
+            memo[id(v)] = o
+            for k_, x in vars(v).items():
+                o.__dict__[k_] = snapshot(x, memo, depth + 1)
+            return o
+        except Exception:
+            return v
+    try:
+        return copy.deepcopy(v)
+    except Exception:
+        return v
+
+
 def call_by_name(fn, available):
     import inspect
     params = list(inspect.signature(fn).parameters)
@@ -619,11 +675,9 @@ def run_case(contract, values, log=None, source=None):
                 out['requires_error'] = repr(e)
                 return out
         olds = {}
+        memo = {}
         for n, v in values.items():
-            try:
-                olds[f'old_{n}'] = copy.deepcopy(v)
-            except Exception:
-                olds[f'old_{n}'] = v
+            olds[f'old_{n}'] = snapshot(v, memo)
         target = real_callable(contract.target)
         install_callee_contracts(contract, patches, log, source)
         names = contract.call if contract.call is not None else list(contract.inputs.keys())
